@@ -30,7 +30,15 @@ Fixpoint set (a : nat) (x : X) (d : dict X) : dict X :=
 End Dict.
 
 (* ------------------------------------------------------------------ the scripted environment family *)
-Inductive okind := KVector | KImage | KDiscrete | KDict | KTuple.
+(* observation space: a plain space, or a Dict / Tuple of member spaces; every member is described by
+   its shape ([] = Discrete or a rank-0 Box) and by whether its dtype is unsigned (uint8) *)
+Inductive ostruct := SPlain | SDict | STuple.
+Record okind := { ostr : ostruct; mshapes : list (list nat); munsigned : list bool }.
+Definition KVector : okind := {| ostr := SPlain; mshapes := [[4]]; munsigned := [false] |}.
+Definition KImage : okind := {| ostr := SPlain; mshapes := [[2; 2; 2]]; munsigned := [true] |}.
+Definition KDiscrete : okind := {| ostr := SPlain; mshapes := [[]]; munsigned := [false] |}.
+Definition KDict : okind := {| ostr := SDict; mshapes := [[2]; []]; munsigned := [false; false] |}.
+Definition KTuple : okind := {| ostr := STuple; mshapes := [[2]; [1; 2]; []]; munsigned := [false; false; false] |}.
 Inductive emode := MTerm | MTrunc | MMixed.
 
 Record senv := { eid : Z; nag : nat; lens : list nat; mode : emode; leave : list (option nat); kind : okind;
@@ -41,25 +49,19 @@ Definition init_state : sstate := {| base := 0; ord := 0; tm := 0; live := [] |}
 Definition obs_t := list (list Z).     (* members of the observation, each flattened row-major *)
 Definition info_t := list (nat * Z).   (* key id (0 = "tag", 1 = "first") -> value *)
 
-(* member shapes of the observation space of each kind; [] is the shape of a Discrete space *)
-Definition mshapes (k : okind) : list (list nat) :=
-  match k with
-  | KVector => [[4]]
-  | KImage => [[2; 2; 2]]
-  | KDiscrete => [[]]
-  | KDict => [[2]; []]
-  | KTuple => [[2]; [1; 2]; []]
-  end.
 Definition msize (sh : list nat) : nat := fold_right Nat.mul 1 sh.      (* int(np.prod(shape)) *)
 
+Fixpoint imap {A B} (f : nat -> A -> B) (i : nat) (l : list A) : list B :=
+  match l with [] => [] | x :: r => f i x :: imap f (S i) r end.
+
+(* member m (shape sh): a member of size 1 that is not unsigned carries all four features packed
+   into one integer; otherwise element j is feature (j + m) mod 4 plus j / 4 *)
+Definition enc_member (u : bool) (m : nat) (sh : list nat) (f0 f1 f2 f3 : Z) : list Z :=
+  if Nat.eqb (msize sh) 1 && negb u
+  then [(((f0 * 40 + f1) * 256 + f2) * 8 + f3)%Z]
+  else map (fun j => (nth ((j + m) mod 4) [f0; f1; f2; f3] 0 + Z.of_nat (j / 4))%Z) (seq 0 (msize sh)).
 Definition encode (k : okind) (f0 f1 f2 f3 : Z) : obs_t :=
-  match k with
-  | KVector => [[f0; f1; f2; f3]]
-  | KImage => [[f0; f1; f2; f3; f0 + 1; f1 + 1; f2 + 1; f3 + 1]]
-  | KDiscrete => [[((f0 * 40 + f1) * 256 + f2) * 8 + f3]]
-  | KDict => [[f0; f1]; [f2 * 8 + f3]]
-  | KTuple => [[f0; f1]; [f2; f3]; [f2 + f3]]
-  end%Z.
+  imap (fun m sh => enc_member (nth m (munsigned k) false) m sh f0 f1 f2 f3) 0 (mshapes k).
 
 Definition observe (E : senv) (s : sstate) (a : nat) (echo : Z) : obs_t :=
   encode (kind E) (eid E) (base s + Z.of_nat (ord s)) (16 * Z.of_nat (tm s) + Z.of_nat a) echo.
@@ -120,8 +122,9 @@ Fixpoint single_run (step : senv -> sstate -> list Z -> sstate * trans)
 
 (* ------------------------------------------------------------------ the worker (_async_worker) *)
 (* get_placeholder_value: -np.ones(shape) written through np.asarray(.., dtype): uint8 wraps to 255 *)
-Definition ph_value (k : okind) : Z := match k with KImage => 255%Z | _ => (-1)%Z end.
-Definition placeholder_obs (k : okind) : obs_t := map (fun sh => repeat (ph_value k) (msize sh)) (mshapes k).
+Definition ph_value (u : bool) : Z := if u then 255%Z else (-1)%Z.
+Definition placeholder_obs (k : okind) : obs_t :=
+  imap (fun m sh => repeat (ph_value (nth m (munsigned k) false)) (msize sh)) 0 (mshapes k).
 
 (* process_transition: {agent: d[agent] if agent in d else placeholder for agent in agents} *)
 Definition fill {X} (agents : list nat) (ph : X) (d : dict X) : dict X :=
@@ -199,7 +202,7 @@ Definition write_shm (i : nat) (k : okind) (o : dict obs_t) (m : shm) : shm :=
 
 (* Observations.__getitem__: reshape to (num_envs, *shape); () becomes (1,) except inside a Tuple *)
 Definition ret_shape (k : okind) (sh : list nat) : list nat :=
-  match sh with [] => match k with KTuple => [] | _ => [1] end | _ => sh end.
+  match sh with [] => match ostr k with STuple => [] | _ => [1] end | _ => sh end.
 Definition varr := (list nat * list Z)%type.        (* returned array: shape, row-major data *)
 Definition read_agent (n : nat) (k : okind) (bufs : list (list Z)) : list varr :=
   map (fun sb => (n :: ret_shape k (fst sb), snd sb)) (combine (mshapes k) bufs).
